@@ -351,7 +351,7 @@ func (w *c19World) teardown() {
 	}
 	// liveness probes / share-over-API goroutines end by themselves
 	time.Sleep(2 * time.Second)
-	synctest.Wait()
+	c19Quiesce()
 	hook.ClearNetSeams()
 	statInstance.moduleStats = nil
 	statInstance.verboseStats = nil
@@ -841,7 +841,7 @@ func (w *c19World) startup() bool {
 		}()
 		rm.HandleRegUpdates(ctx, w.regChan, w.wg)
 	}()
-	synctest.Wait()
+	c19Quiesce()
 	w.cancel = cancel
 	if c := crashed.Load(); c != nil {
 		r.Probe("startup_crash_in_ingest_launch")
@@ -924,7 +924,7 @@ func (w *c19World) ingestOne() {
 	w.zi.addZMQMessage()
 	w.regChan <- msg
 	time.Sleep(time.Second)
-	synctest.Wait()
+	c19Quiesce()
 	after := w.rm.registeredDecoys.TotalRegistrations()
 	w.regsSent++
 	w.r.Logf("registration secret=%d gen=%d covert=%q source=%s v4=%v v6=%v prescanned=%v phantom-probe=%s -> tracked %d->%d", secret, gen, covert, src, v4, v6, pre,
@@ -973,7 +973,7 @@ func (w *c19World) epoch(tag string) bool {
 			w.r.Logf("liveness query %s -> live=%v", addr, live)
 		}
 		time.Sleep(time.Second)
-		synctest.Wait()
+		c19Quiesce()
 	}
 	gap := []time.Duration{5 * time.Second, 0, time.Millisecond, 60 * time.Second, 2 * time.Hour}[tp.Choose("epoch_gap", 5)]
 	time.Sleep(gap)
@@ -1317,11 +1317,36 @@ func TestVerifC19(t *testing.T) {
 	})
 }
 
+// c19Scenario runs the whole (single-threaded) scenario as ONE task of a scheduler: the package's
+// locks are then emulated, so a lock that a reload or a printer leaves held shows up as a deadlock
+// verdict (the director waits for a lock nobody will release) instead of hanging the process.
 func c19Scenario(r *sim.Run) {
+	s := hook.Install(r.Tape)
+	defer s.Uninstall()
+	finished := false
+	s.Spawn("director", func() {
+		c19Body(r)
+		finished = true
+	})
+	st := sim.Drive(r, s, sim.DriveOpt{Horizon: 100000 * time.Hour, MaxSteps: 1000000, Until: func() bool { return finished }})
+	defer s.Finish()
+	if st == sim.Deadlock || (st != sim.Done && st != sim.AllExited && st != sim.Failed && !finished) {
+		r.Fail("C19/deadlock/housekeeping", "statistics / expiry / reload blocked for ever (%v): %s", st, s.WaitForGraph())
+	}
+}
+
+// c19Quiesce waits until every other goroutine of the run is blocked or has exited (the scenario
+// runs as a scheduler task, so it cannot call synctest.Wait itself: the root is inside it).
+func c19Quiesce() {
+	if hook.TaskName() == "" {
+		synctest.Wait()
+		return
+	}
+	hook.ParkIdle("quiesce")
+}
+
+func c19Body(r *sim.Run) {
 	tp := r.Tape
-	// the iteration order of the subnet file's generation table (a Go map) comes from the tape
-	hook.SetMapOrder(tp)
-	defer hook.SetMapOrder(nil)
 	w := c19NewWorld(r)
 	defer w.teardown()
 	if verifLogFile != nil {
